@@ -403,26 +403,12 @@ func (r *relay) header(
 	streamEnded bool,
 	priority http2.PriorityParam,
 ) error {
-	encoded, err := r.encodeFull(headers)
-	if err != nil {
-		return fmt.Errorf("encoding headers %v: %w", headers, err)
-	}
-
-	maxPayloadLength := atomic.LoadUint32(&r.maxFrameSize)
-	// Padding is not implemented because the extra security is not needed for a development proxy.
-	// If it were used, a single padding length octet should be deducted from the max header fragment
-	// length.
-	maxHeaderFragmentLength := maxPayloadLength
-	if !priority.IsZero() {
-		maxHeaderFragmentLength -= headersPriorityMetadataLength
-	}
-	chunks := splitIntoChunks(int(maxHeaderFragmentLength), int(maxPayloadLength), encoded)
-
 	r.enqueueFrame(&queuedHeaderFrame{
 		streamID:  id,
 		endStream: streamEnded,
 		priority:  priority,
-		chunks:    chunks,
+		headers:   headers,
+		encode:    r.encodeChunks,
 	})
 	return nil
 }
@@ -442,21 +428,25 @@ func (r *relay) rstStream(id uint32, errCode http2.ErrCode) {
 }
 
 func (r *relay) pushPromise(id, promiseID uint32, headers []hpack.HeaderField) error {
-	encoded, err := r.encodeFull(headers)
-	if err != nil {
-		return fmt.Errorf("encoding push promise headers %v: %w", headers, err)
-	}
-
-	maxPayloadLength := atomic.LoadUint32(&r.maxFrameSize)
-	maxHeaderFragmentLength := maxPayloadLength - pushPromiseMetadataLength
-	chunks := splitIntoChunks(int(maxHeaderFragmentLength), int(maxPayloadLength), encoded)
-
 	r.enqueueFrame(&queuedPushPromiseFrame{
 		streamID:  id,
 		promiseID: promiseID,
-		chunks:    chunks,
+		headers:   headers,
+		encode:    r.encodeChunks,
 	})
 	return nil
+}
+
+// encodeChunks encodes the header block and splits it into the payloads of the frame that starts
+// the block, which carries firstChunkOverhead octets of other fields, and of its continuations.
+// It is called by the writer when the frame is sent.
+func (r *relay) encodeChunks(headers []hpack.HeaderField, firstChunkOverhead uint32) ([][]byte, error) {
+	encoded, err := r.encodeFull(headers)
+	if err != nil {
+		return nil, err
+	}
+	maxPayloadLength := atomic.LoadUint32(&r.maxFrameSize)
+	return splitIntoChunks(int(maxPayloadLength-firstChunkOverhead), int(maxPayloadLength), encoded), nil
 }
 
 func (r *relay) enqueueFrame(f queuedFrame) {
